@@ -50,6 +50,16 @@ type RunOpts struct {
 func NewExploreTrace(prop, tier string, seed uint64, world int) *Trace {
 	r := core.Derive(seed, "config-"+prop, uint64(world))
 	cfg := NewConfig(prop, tier, r)
+	if prop == "C06" && core.Derive(seed, "c06-boundary-tie", uint64(world)).Chance(0.08) {
+		// drawn from its own stream: the other worlds of the seed are exactly what they were without this family
+		cfg.BoundaryTie = true
+		cfg.NVals = 3 // the staking limits are in force only with three or more validators
+		if cfg.NActors < 6 {
+			cfg.NActors = 6
+		}
+		cfg.PEvidence, cfg.POutage, cfg.PAbsent = 0, 0, 0
+		cfg.KindW["unstake"] = 0.5
+	}
 	tr := &Trace{Version: 1, Engine: "chain-sim", Seed: seed, World: world, Cfg: cfg}
 	tr.Genesis = NewGenesis(&tr.Cfg, seed, world, r)
 	return tr
